@@ -45,6 +45,7 @@ structure DState where
   cur : Option C3D := none
   vars : List (String × Frame) := []
   mode : DumpMode := .full
+  pk : Param := { name := ofAscii "P" }     -- the parameter the pset ops work on
 
 def DState.getVar (d : DState) (v : String) : Frame :=
   match d.vars.find? (·.1 == v) with | some (_, f) => f | none => {}
@@ -165,6 +166,11 @@ def stepLine (d : DState) (n : Nat) (line : String) : IO (DState × List String)
         let p := { p1 with locked := lk == "1" }
         let (d', ls) := applyOutcome d (s.parameter fops (X g) p)
         return (d', hd :: ls)
+    | ["paramself", sg, sp, dg] =>
+      match getParam s.groups (X sg) (X sp) with
+      | .ok p => let (d', ls) := applyOutcome d (s.parameter fops (X dg) p); return (d', hd :: ls)
+      | .throw e => let (d', ls) := applyOutcome d (.throw e s); return (d', hd :: ls)
+      | .ub k => let (d', ls) := applyOutcome d (.ub k); return (d', hd :: ls)
     | ["lock", g] => let (d', ls) := applyOutcome d (s.setGroupLock (X g) true); return (d', hd :: ls)
     | ["unlock", g] => let (d', ls) := applyOutcome d (s.setGroupLock (X g) false); return (d', hd :: ls)
     | ["frame", v] => let (d', ls) := applyOutcome d (s.frame fops (d.getVar v)); return (d', hd :: ls)
@@ -216,11 +222,11 @@ def stepLine (d : DState) (n : Nat) (line : String) : IO (DState × List String)
     | ["print"] => return (d, [hd, "R ok"])
     | ["dump"] => return (d, hd :: dumpLines d.mode s)
     | ["sep"] => return (d, [hd, "V sep ok"])    -- C08.reach_sep: separation holds in every reachable state of Model/Heap
+    | ["pnew"] => let p0 : Param := { name := ofAscii "P" }; return ({ d with pk := p0 }, [hd, "R ok", "PS " ++ paramLine p0])
     | ["pset", ty, dims, vals] =>
-      let p0 : Param := { name := ofAscii "P" }
-      match setParamFromScript p0 ty dims vals with
-      | .ok p => return (d, [hd, "R ok", "PS " ++ paramLine p])
-      | .throw e => return (d, [hd, s!"R throw {e}", "PS " ++ paramLine p0])
+      match setParamFromScript d.pk ty dims vals with
+      | .ok p => return ({ d with pk := p }, [hd, "R ok", "PS " ++ paramLine p])
+      | .throw e => return (d, [hd, s!"R throw {e}", "PS " ++ paramLine d.pk])
       | .ub k => return (d, [hd, s!"R ub {k.toString}"])
     | "get" :: rest => return (d, [hd, getOp s rest])
     | ["hex2int", x] => return (d, [hd, s!"V {hex2int (X x)}"])
